@@ -182,6 +182,9 @@ pub struct Identifier { _p: () }
 
 // which consumer group of topic t the identifier denotes, if any (resolution by id / by name is C06's subject)
 pub uninterp spec fn group_of(t: Topic, id: Identifier) -> Option<u32>;
+// the identifier is well-formed as decoded (sdk Identifier::from_bytes / validate / numeric / named: a numeric identifier is 4 bytes
+// long) — unit catalogue_maps' `ident_valid`, opaque here like the Identifier itself (added by link pass 2)
+pub uninterp spec fn ident_valid(id: Identifier) -> bool;
 
 impl Topic {
     // Topic::get_consumer_group (topics/consumer_groups.rs) is NOT extracted. In the source it returns
@@ -189,8 +192,13 @@ impl Topic {
     // same group is handed out as an exclusive reference (R6 promotion at the access path). Assumed: it yields the
     // group the identifier denotes, what is written through the reference is what the map holds afterwards under the
     // same key, nothing else of the topic changes; on Err nothing changes.
+    // LINKED (the READ half: the clauses over old(self) of the match; with group_of INTERPRETED as the catalogue lookup): units/catalogue_maps/lemmas.rs,
+    // harness [C06.link.consumer_group.get_consumer_group] (mirror edits there). The write-back half (final(self)..) is the get_mut schema of the R6
+    // promotion: still assumed. The `requires` was ADDED by the link: the real function `unwrap()`s `identifier.get_u32_value()`
+    // (topics/consumer_groups.rs:38) and panics on a numeric identifier that is not 4 bytes long — the stub had no precondition.
     #[verifier::external_body]
     pub fn get_consumer_group<'a>(&'a mut self, identifier: &Identifier) -> (r: Result<&'a mut ConsumerGroup, IggyError>)
+        requires ident_valid(*identifier),
         ensures
             final(self).partitions == old(self).partitions,
             final(self).stream_id == old(self).stream_id && final(self).topic_id == old(self).topic_id,
@@ -256,6 +264,7 @@ pub uninterp spec fn stream_of(s: System, id: Identifier) -> Option<u32>;
 pub uninterp spec fn stream_topic(st: Stream, id: Identifier) -> Topic;
 
 impl Stream {
+    // LINKED (stream_topic INTERPRETED as the catalogue lookup): units/catalogue_maps/lemmas.rs, harness [C06.link.consumer_group.get_topic_mut] (mirror edits there)
     #[verifier::external_body]
     pub fn get_topic_mut<'a>(&'a mut self, identifier: &Identifier) -> (r: Result<&'a mut Topic, IggyError>)
         ensures
@@ -270,6 +279,7 @@ impl System {
     pub fn ensure_authenticated(&self, session: &Session) -> Result<(), IggyError> { unimplemented!() }
     #[verifier::external_body]
     pub fn find_topic(&self, session: &Session, stream_id: &Identifier, topic_id: &Identifier) -> Result<&Topic, IggyError> { unimplemented!() }
+    // LINKED (stream_of INTERPRETED as the catalogue lookup): units/catalogue_maps/lemmas.rs, harness [C06.link.consumer_group.get_stream_mut] (mirror edits there)
     #[verifier::external_body]
     pub fn get_stream_mut<'a>(&'a mut self, identifier: &Identifier) -> (r: Result<&'a mut Stream, IggyError>)
         ensures
@@ -286,15 +296,31 @@ impl System {
             },
     { unimplemented!() }
 }
+// the partition table of the topic is well-formed in the sense of unit catalogue_more (ids exactly 1..=n <= 100000, each partition filed under
+// its own ids; A-size: the topic's segment / message totals fit u32 / u64) — the preconditions under which the real
+// add_/delete_persisted_partitions are proved there (`parts_wf`, `sum_segs`, `sum_msgs`); opaque here like the partition cells
+// (added by link pass 2; established by Topic::create / load, preserved by the two functions: catalogue_more [C06.partitions.*])
+pub uninterp spec fn parts_ok(t: Topic) -> bool;
+// ... of the topic the two identifiers denote (nothing is required of any other topic)
+pub open spec fn sys_topic_parts_ok(s: System, sid: Identifier, tid: Identifier) -> bool {
+    (stream_of(s, sid) is Some && s.streams@.contains_key(stream_of(s, sid)->0)) ==> parts_ok(stream_topic(s.streams@[stream_of(s, sid)->0], tid))
+}
 impl Topic {
     // topics/partitions.rs (not extracted): creates/deletes partition objects and their files. Assumed for C08: the
     // consumer groups are not touched, and the partition map stays within the u32 id space.
+    // LINKED (second clause; parts_ok INTERPRETED): units/catalogue_more/lemmas.rs, harnesses [C08.link.consumer_group.add_persisted_partitions] /
+    // [C08.link.consumer_group.delete_persisted_partitions] (mirror edits there). The `requires` were ADDED by the link: the real functions add
+    // `partitions.len() as u32 + count` in u32, `unwrap()` the removal of the n highest ids and sum the gauges in u32 / u64 — the stubs had no
+    // precondition (100_000 = server MAX_PARTITIONS_COUNT). The first clause is the R12 projection argument (catalogue_more's Topic has no
+    // `consumer_groups` field: the real text type-checks without it, and every kept field but `partitions` is framed there): still stated.
     #[verifier::external_body]
     pub fn add_persisted_partitions(&mut self, count: u32) -> (r: Result<Vec<u32>, IggyError>)
+        requires parts_ok(*old(self)), count <= 100_000,
         ensures final(self).consumer_groups == old(self).consumer_groups, final(self).partitions@.len() <= u32::MAX,
     { unimplemented!() }
     #[verifier::external_body]
     pub fn delete_persisted_partitions(&mut self, count: u32) -> (r: Result<Option<DeletedPartitions>, IggyError>)
+        requires parts_ok(*old(self)),
         ensures final(self).consumer_groups == old(self).consumer_groups, final(self).partitions@.len() <= u32::MAX,
     { unimplemented!() }
 }
